@@ -1,5 +1,263 @@
-From Coq Require Import ZArith List Bool.
+(* C15 — proofs.  Part 1: the recursive-descent parser decides the grammar (both readings of Law.v) *)
+From Coq Require Import ZArith List Bool Arith Lia.
 From TV Require Import Common.Harness C15.Model C15.Law.
 Import ListNotations.
-Lemma stub : compile_str [CStart 97] = Graphs [G (NNamed [97%Z] true false) []].
-Proof. reflexivity. Qed.
+
+Scheme D_elem_min := Minimality for D_elem Sort Prop
+  with D_ser_min := Minimality for D_ser Sort Prop
+  with D_par_min := Minimality for D_par Sort Prop.
+Combined Scheme D_mutind from D_elem_min, D_ser_min, D_par_min.
+
+Definition le_flag (b b' : bool) : Prop := b = true -> b' = true.
+
+Lemma le_flag_and b b' d : le_flag b b' -> le_flag (b && d) (b' && d).
+Proof. unfold le_flag. destruct b, b', d; cbn; auto. Qed.
+Lemma le_flag_false b : le_flag false b.
+Proof. intro H; discriminate. Qed.
+Lemma le_flag_refl b : le_flag b b.
+Proof. intro H; exact H. Qed.
+
+Section Grammar.
+Variable doc : bool.
+
+(* ---------- three facts about the position flag ---------- *)
+Lemma promote_mut :
+  (forall b ts t, D_elem doc b ts t -> forall b', le_flag b b' -> D_elem doc b' ts t) /\
+  (forall b ts t, D_ser doc b ts t -> forall b', le_flag b b' -> D_ser doc b' ts t) /\
+  (forall b ts t, D_par doc b ts t -> forall b', le_flag b b' -> D_par doc b' ts t).
+Proof.
+  apply D_mutind; intros.
+  - now apply De_items.
+  - now apply De_trait.
+  - apply De_meta.
+  - rewrite (H eq_refl). apply De_any.
+  - apply De_br. apply H0. now apply le_flag_and.
+  - apply Ds_one. auto.
+  - apply Ds_cons; auto.
+  - apply Dp_one. auto.
+  - apply Dp_cons; auto.
+Qed.
+
+Lemma nostar_mut :
+  (forall b ts t, D_elem doc b ts t -> b = false -> has_any t = false) /\
+  (forall b ts t, D_ser doc b ts t -> b = false -> has_any t = false) /\
+  (forall b ts t, D_par doc b ts t -> b = false -> has_any t = false).
+Proof.
+  apply D_mutind; intros; subst; cbn; auto; try discriminate.
+  - rewrite (H0 eq_refl), (H2 eq_refl). reflexivity.
+  - rewrite (H0 eq_refl), (H2 eq_refl). reflexivity.
+Qed.
+
+Lemma demote_mut :
+  (forall b ts t, D_elem doc b ts t -> has_any t = false -> D_elem doc false ts t) /\
+  (forall b ts t, D_ser doc b ts t -> has_any t = false -> D_ser doc false ts t) /\
+  (forall b ts t, D_par doc b ts t -> has_any t = false -> D_par doc false ts t).
+Proof.
+  apply D_mutind; intros.
+  - now apply De_items.
+  - now apply De_trait.
+  - apply De_meta.
+  - discriminate.
+  - apply De_br. cbn. auto.
+  - apply Ds_one. auto.
+  - cbn in H3. apply orb_false_elim in H3. destruct H3. apply Ds_cons; auto.
+  - apply Dp_one. auto.
+  - cbn in H3. apply orb_false_elim in H3. destruct H3. apply Dp_cons; auto.
+Qed.
+
+(* ---------- soundness ---------- *)
+Definition sound (p : list tok -> res) (D : list tok -> tree -> Prop) : Prop :=
+  forall ts t r, p ts = Some (t, r) -> exists pre, ts = pre ++ r /\ D pre t.
+
+Lemma p_elem_sound rec : (forall b, sound (rec b) (D_par doc b)) -> forall b, sound (p_elem doc rec b) (D_elem doc b).
+Proof.
+  intros Hrec b ts t r H. unfold p_elem in H.
+  destruct ts as [|[w| | |c| | |] ts']; try discriminate.
+  - inversion H; subst. exists [W w]. split; [reflexivity|].
+    destruct (is_items w) eqn:E; [now apply De_items|now apply De_trait].
+  - destruct ts' as [|[w| | |c| | |] ts'']; try discriminate. inversion H; subst.
+    exists [PLUS; W w]. split; [reflexivity|constructor].
+  - destruct b; [|discriminate]. inversion H; subst. exists [STAR]. split; [reflexivity|constructor].
+  - destruct (rec (b && doc) ts') as [[t' r']|] eqn:E; [|discriminate].
+    destruct r' as [|[w| | |c| | |] r'']; try discriminate. inversion H; subst.
+    destruct (Hrec _ _ _ _ E) as (pre & -> & HD).
+    exists (LBR :: pre ++ [RBR]). split; [|constructor; exact HD].
+    cbn. rewrite <- app_assoc. reflexivity.
+Qed.
+
+Lemma ser_loop_sound pe b : sound pe (D_elem doc b) ->
+  forall k left ts t r pre0, D_ser doc b pre0 left -> ser_loop pe k left ts = Some (t, r) ->
+  exists pre, ts = pre ++ r /\ D_ser doc b (pre0 ++ pre) t.
+Proof.
+  intros Hpe. induction k as [|k IH]; intros left ts t r pre0 HD H; [discriminate|].
+  cbn [ser_loop] in H.
+  destruct ts as [|[w| | |c| | |] ts'];
+    try (inversion H; subst; exists []; split; [reflexivity|rewrite app_nil_r; assumption]).
+  destruct (has_any left) eqn:Ha; [discriminate|].
+  destruct (pe ts') as [[e r']|] eqn:E; [|discriminate].
+  destruct (Hpe _ _ _ E) as (pe_pre & -> & HE).
+  assert (HD0 : D_ser doc false pre0 left) by (eapply (proj1 (proj2 demote_mut)); eauto).
+  destruct (IH _ _ _ _ (pre0 ++ TC c :: pe_pre) (Ds_cons _ _ _ _ c _ _ HD0 HE) H) as (pre & -> & HD').
+  exists (TC c :: pe_pre ++ pre). split.
+  - cbn. rewrite <- app_assoc. reflexivity.
+  - rewrite <- app_assoc in HD'. exact HD'.
+Qed.
+
+Lemma p_ser_sound rec k : (forall b, sound (rec b) (D_par doc b)) -> forall b, sound (p_ser doc rec b k) (D_ser doc b).
+Proof.
+  intros Hrec b ts t r H. unfold p_ser in H.
+  destruct (p_elem doc rec b ts) as [[e r0]|] eqn:E; [|discriminate].
+  destruct (p_elem_sound rec Hrec b _ _ _ E) as (pre0 & -> & HE).
+  destruct (ser_loop_sound _ b (p_elem_sound rec Hrec b) _ _ _ _ _ pre0 (Ds_one _ _ _ _ HE) H) as (pre & -> & HD).
+  exists (pre0 ++ pre). split; [rewrite app_assoc; reflexivity|exact HD].
+Qed.
+
+Lemma par_loop_sound ps b : sound ps (D_ser doc b) ->
+  forall k left ts t r pre0, D_par doc b pre0 left -> par_loop ps k left ts = Some (t, r) ->
+  exists pre, ts = pre ++ r /\ D_par doc b (pre0 ++ pre) t.
+Proof.
+  intros Hps. induction k as [|k IH]; intros left ts t r pre0 HD H; [discriminate|].
+  cbn [par_loop] in H.
+  destruct ts as [|[w| | |c| | |] ts'];
+    try (inversion H; subst; exists []; split; [reflexivity|rewrite app_nil_r; assumption]).
+  destruct (ps ts') as [[e r']|] eqn:E; [|discriminate].
+  destruct (Hps _ _ _ E) as (ps_pre & -> & HE).
+  destruct (IH _ _ _ _ (pre0 ++ COMMA :: ps_pre) (Dp_cons _ _ _ _ _ _ HD HE) H) as (pre & -> & HD').
+  exists (COMMA :: ps_pre ++ pre). split.
+  - cbn. rewrite <- app_assoc. reflexivity.
+  - rewrite <- app_assoc in HD'. exact HD'.
+Qed.
+
+Lemma p_par_sound fuel : forall b, sound (p_par doc fuel b) (D_par doc b).
+Proof.
+  induction fuel as [|f IH]; intros b ts t r H; [discriminate|].
+  cbn [p_par] in H. unfold p_par_body in H.
+  destruct (p_ser doc (p_par doc f) b f ts) as [[s r0]|] eqn:E; [|discriminate].
+  destruct (p_ser_sound _ _ IH b _ _ _ E) as (pre0 & -> & HS).
+  destruct (par_loop_sound _ b (p_ser_sound _ _ IH b) _ _ _ _ _ pre0 (Dp_one _ _ _ _ HS) H) as (pre & -> & HD).
+  exists (pre0 ++ pre). split; [rewrite app_assoc; reflexivity|exact HD].
+Qed.
+
+Lemma parse_toks_gen_sound ts t : parse_toks_gen doc ts = Some t -> D_par doc true ts t.
+Proof.
+  unfold parse_toks_gen. intros H.
+  destruct (p_par doc (fuel_for ts) true ts) as [[t' r]|] eqn:E; [|discriminate].
+  destruct r; [|discriminate]. inversion H; subst.
+  destruct (p_par_sound _ _ _ _ _ E) as (pre & -> & HD). rewrite app_nil_r. exact HD.
+Qed.
+
+(* ---------- completeness, with an explicit fuel bound ---------- *)
+Definition no_tc (r : list tok) : Prop := match r with TC _ :: _ => False | _ => True end.
+Definition no_comma (r : list tok) : Prop := match r with COMMA :: _ => False | _ => True end.
+
+Lemma ser_loop_mono pe k left ts x : ser_loop pe k left ts = Some x ->
+  forall k', k <= k' -> ser_loop pe k' left ts = Some x.
+Proof.
+  revert left ts. induction k as [|k IH]; intros left ts H k' Hk; [discriminate|].
+  destruct k' as [|k']; [lia|]. cbn [ser_loop] in *.
+  destruct ts as [|[w| | |c| | |] ts']; try exact H.
+  destruct (has_any left); [discriminate|].
+  destruct (pe ts') as [[e r']|]; [|discriminate]. apply IH; [exact H|lia].
+Qed.
+Lemma par_loop_mono ps k left ts x : par_loop ps k left ts = Some x ->
+  forall k', k <= k' -> par_loop ps k' left ts = Some x.
+Proof.
+  revert left ts. induction k as [|k IH]; intros left ts H k' Hk; [discriminate|].
+  destruct k' as [|k']; [lia|]. cbn [par_loop] in *.
+  destruct ts as [|[w| | |c| | |] ts']; try exact H.
+  destruct (ps ts') as [[e r']|]; [|discriminate]. apply IH; [exact H|lia].
+Qed.
+Lemma ser_loop_stop pe k left r : no_tc r -> ser_loop pe (S k) left r = Some (left, r).
+Proof. intros H. cbn [ser_loop]. destruct r as [|[w| | |c| | |] r']; try reflexivity. destruct H. Qed.
+Lemma par_loop_stop ps k left r : no_comma r -> par_loop ps (S k) left r = Some (left, r).
+Proof. intros H. cbn [par_loop]. destruct r as [|[w| | |c| | |] r']; try reflexivity. destruct H. Qed.
+
+Definition C_elem (b : bool) (ts : list tok) (t : tree) : Prop :=
+  forall b', le_flag b b' -> forall f, 2 * length ts <= f -> forall rest,
+    p_elem doc (p_par doc f) b' (ts ++ rest) = Some (t, rest).
+Definition C_ser (b : bool) (ts : list tok) (t : tree) : Prop :=
+  forall b', le_flag b b' -> forall f, 2 * length ts <= f -> forall k rest x,
+    ser_loop (p_elem doc (p_par doc f) b') k t rest = Some x ->
+    p_ser doc (p_par doc f) b' (k + 2 * length ts) (ts ++ rest) = Some x.
+Definition C_par (b : bool) (ts : list tok) (t : tree) : Prop :=
+  forall b', le_flag b b' -> forall f, 2 * length ts + 1 <= f -> forall ks, 2 * length ts + 1 <= ks ->
+    forall kp rest x, no_tc rest ->
+    par_loop (p_ser doc (p_par doc f) b' ks) kp t rest = Some x ->
+    p_par_body doc (p_par doc f) b' ks (kp + (2 * length ts + 1)) (ts ++ rest) = Some x.
+
+Lemma complete_mut :
+  (forall b ts t, D_elem doc b ts t -> C_elem b ts t) /\
+  (forall b ts t, D_ser doc b ts t -> C_ser b ts t) /\
+  (forall b ts t, D_par doc b ts t -> C_par b ts t).
+Proof.
+  apply D_mutind.
+  - intros b w Hw b' _ f _ rest. cbn. rewrite Hw. reflexivity.
+  - intros b w Hw b' _ f _ rest. cbn. rewrite Hw. reflexivity.
+  - intros b w b' _ f _ rest. reflexivity.
+  - intros b' Hb f _ rest. rewrite (Hb eq_refl). reflexivity.
+  - (* brackets *)
+    intros b ts t _ IH b' Hb f Hf rest.
+    rewrite app_length in Hf. cbn [length] in Hf.
+    destruct f as [|f]; [lia|]. cbn [app p_elem]. rewrite <- app_assoc. cbn [app].
+    cbn [p_par].
+    assert (exists kp, f = S kp + (2 * length ts + 1)) as (kp & Ef) by (exists (f - (2 * length ts + 1) - 1); lia).
+    assert (p_par_body doc (p_par doc f) (b' && doc) f (S kp + (2 * length ts + 1)) (ts ++ RBR :: rest)
+            = Some (t, RBR :: rest)) as Hcall.
+    { apply (IH (b' && doc) (le_flag_and _ _ _ Hb) f ltac:(lia) f ltac:(lia) (S kp) (RBR :: rest) (t, RBR :: rest) I).
+      apply par_loop_stop. exact I. }
+    rewrite <- Ef in Hcall. rewrite Hcall. reflexivity.
+  - (* series: one element *)
+    intros b ts t _ IH b' Hb f Hf k rest x Hx.
+    unfold p_ser. rewrite (IH b' Hb f Hf). eapply ser_loop_mono; [exact Hx|lia].
+  - (* series: left recursion *)
+    intros b ts1 t1 c ts2 t2 HD1 IH1 _ IH2 b' Hb f Hf k rest x Hx.
+    rewrite app_length in *. cbn [length] in *. rewrite <- app_assoc. cbn [app].
+    replace (k + 2 * (length ts1 + S (length ts2))) with ((k + 2 * length ts2 + 2) + 2 * length ts1) by lia.
+    apply (IH1 b' (le_flag_false _) f ltac:(lia)).
+    apply ser_loop_mono with (k := S k); [|lia]. cbn [ser_loop].
+    rewrite (proj1 (proj2 nostar_mut) _ _ _ HD1 eq_refl).
+    rewrite (IH2 b' Hb f ltac:(lia)). exact Hx.
+  - (* parallel: one series *)
+    intros b ts t _ IH b' Hb f Hf ks Hks kp rest x Hr Hx.
+    unfold p_par_body.
+    assert (exists k0, ks = S k0 + 2 * length ts) as (k0 & Ek) by (exists (ks - 2 * length ts - 1); lia).
+    assert (p_ser doc (p_par doc f) b' (S k0 + 2 * length ts) (ts ++ rest) = Some (t, rest)) as Hcall.
+    { apply (IH b' Hb f ltac:(lia) (S k0) rest (t, rest)). apply ser_loop_stop. exact Hr. }
+    rewrite <- Ek in Hcall. rewrite Hcall.
+    eapply par_loop_mono; [exact Hx|lia].
+  - (* parallel: left recursion *)
+    intros b ts1 t1 ts2 t2 _ IH1 _ IH2 b' Hb f Hf ks Hks kp rest x Hr Hx.
+    rewrite app_length in *. cbn [length] in *. rewrite <- app_assoc. cbn [app].
+    replace (kp + (2 * (length ts1 + S (length ts2)) + 1))
+      with ((kp + 2 * length ts2 + 2) + (2 * length ts1 + 1)) by lia.
+    apply (IH1 b' Hb f ltac:(lia) ks ltac:(lia)); [exact I|].
+    apply par_loop_mono with (k := S kp); [|lia]. cbn [par_loop].
+    assert (exists k0, ks = S k0 + 2 * length ts2) as (k0 & Ek) by (exists (ks - 2 * length ts2 - 1); lia).
+    assert (p_ser doc (p_par doc f) b' (S k0 + 2 * length ts2) (ts2 ++ rest) = Some (t2, rest)) as Hcall.
+    { apply (IH2 b' Hb f ltac:(lia) (S k0) rest (t2, rest)). apply ser_loop_stop. exact Hr. }
+    rewrite <- Ek in Hcall. rewrite Hcall. exact Hx.
+Qed.
+
+Lemma parse_toks_gen_complete ts t : D_par doc true ts t -> parse_toks_gen doc ts = Some t.
+Proof.
+  intros HD. unfold parse_toks_gen, fuel_for.
+  replace (2 * length ts + 3) with (S (2 * length ts + 2)) by lia. cbn [p_par].
+  assert (p_par_body doc (p_par doc (2 * length ts + 2)) true (2 * length ts + 2) (1 + (2 * length ts + 1)) (ts ++ [])
+          = Some (t, [])) as Hcall.
+  { apply (proj2 (proj2 complete_mut) _ _ _ HD true (le_flag_refl _) _ ltac:(lia) _ ltac:(lia) 1 [] (t, []) I).
+    apply par_loop_stop. exact I. }
+  rewrite app_nil_r in Hcall. replace (1 + (2 * length ts + 1)) with (2 * length ts + 2) in Hcall by lia.
+  rewrite Hcall. reflexivity.
+Qed.
+
+Lemma parse_toks_gen_iff ts t : parse_toks_gen doc ts = Some t <-> D_par doc true ts t.
+Proof. split; [apply parse_toks_gen_sound|apply parse_toks_gen_complete]. Qed.
+
+(* the grammar is unambiguous: a token list has at most one derivation tree *)
+Lemma derivation_unique ts t1 t2 : D_par doc true ts t1 -> D_par doc true ts t2 -> t1 = t2.
+Proof.
+  intros H1 H2. apply parse_toks_gen_complete in H1. apply parse_toks_gen_complete in H2.
+  rewrite H1 in H2. now inversion H2.
+Qed.
+
+End Grammar.
